@@ -297,7 +297,7 @@ func buildC05Scenarios() []*c05Scenario {
 		}
 	}
 	// access node: no database
-	for _, state := range []string{"empty", "synced"} {
+	for _, state := range []string{"empty", "synced", "set-only", "key-only"} {
 		sc := &c05Scenario{Name: "accessnode/" + state, Fl: "accessnode", State: state, Topics: []string{kprtopics.DecryptionKeys}, Bases: map[string][]p2pmsg.Message{}}
 		sc.Bases[kprtopics.DecryptionKeys] = []p2pmsg.Message{c05KeysMsg("accessnode", fix, c05IDs("accessnode"), []int{1, 2})}
 		for _, deg := range []uint64{0, 1} {
@@ -316,6 +316,15 @@ func (sc *c05Scenario) instantiate() *c05Target {
 	t := &c05Target{}
 	if sc.Fl == "accessnode" {
 		an := newAccessNode(c05MaxKeys)
+		if sc.State == "set-only" || sc.State == "key-only" {
+			// in between: the keyper set was announced but its eon key not yet broadcast, or the other way round
+			fix := getEonFixture(c05N, c05T)
+			if sc.State == "key-only" {
+				an.Storage.AddEonKey(c05CfgIdx, fix.Real.EonPublicKey())
+			} else {
+				an.Storage.AddKeyperSet(c05CfgIdx, &obskeyper.KeyperSet{KeyperConfigIndex: c05CfgIdx, Keypers: addrStrings(c05Members(true)), Threshold: c05T})
+			}
+		}
 		if sc.State == "synced" {
 			fix := getEonFixture(c05N, c05T)
 			an.Storage.AddEonKey(c05CfgIdx, fix.Real.EonPublicKey())
@@ -523,6 +532,38 @@ func mutateProto(rt *rapid.T, l string, m protoreflect.Message, depth int) strin
 			return "topbit:" + st.path
 		}
 	}
+	if depth == 0 && rapid.IntRange(0, 11).Draw(rt, l+"otherIndex") == 0 {
+		// index class: one small 64-bit integer of the tree (sender / signer / keyper-set indices) becomes
+		// another small value that is in range too - everything else, all list elements included, stays
+		var sites, ints []leafSite
+		collectLeafSites(m, "", 0, &sites)
+		for _, st := range sites {
+			if st.fd.Kind() != protoreflect.Uint64Kind {
+				continue
+			}
+			cur := st.m.Get(st.fd)
+			if st.idx >= 0 {
+				cur = cur.List().Get(st.idx)
+			}
+			if cur.Uint() < 8 {
+				ints = append(ints, st)
+			}
+		}
+		if len(ints) > 0 {
+			st := ints[rapid.IntRange(0, len(ints)-1).Draw(rt, l+"otherIndexSite")]
+			cur := st.m.Get(st.fd)
+			if st.idx >= 0 {
+				cur = cur.List().Get(st.idx)
+			}
+			v := (cur.Uint() + uint64(rapid.IntRange(1, 2).Draw(rt, l+"otherIndexD"))) % 3
+			if st.idx < 0 {
+				st.m.Set(st.fd, protoreflect.ValueOfUint64(v))
+			} else {
+				st.m.Mutable(st.fd).List().Set(st.idx, protoreflect.ValueOfUint64(v))
+			}
+			return "other-index:" + st.path
+		}
+	}
 	if depth == 0 && rapid.IntRange(0, 9).Draw(rt, l+"leafmode") < 4 {
 		// every populated scalar of the tree is equally likely, however deep it sits: the top-down walk
 		// below reaches an element of a list in a nested message only rarely
@@ -562,7 +603,22 @@ func mutateProto(rt *rapid.T, l string, m protoreflect.Message, depth int) strin
 	switch {
 	case fd.IsList():
 		lst := m.Mutable(fd).List()
-		switch rapid.IntRange(0, 4).Draw(rt, l+"lk") {
+		switch rapid.IntRange(0, 5).Draw(rt, l+"lk") {
+		case 5:
+			// the same kind of damage in every element (several bad entries in one message)
+			if lst.Len() >= 2 {
+				for i := 0; i < lst.Len(); i++ {
+					if fd.Kind() == protoreflect.MessageKind {
+						if depth < 3 {
+							mutateProto(rt, fmt.Sprintf("%sall%d", l, i), lst.Get(i).Message(), depth+1)
+						}
+					} else {
+						lst.Set(i, mutScalar(lst.Get(i)))
+					}
+				}
+				return name + ":every-element"
+			}
+			return name + ":every-element(short list)"
 		case 0:
 			lst.Truncate(0)
 			return name + ":clear"
@@ -721,7 +777,7 @@ func c05Run(tg *c05Target, topic string, data []byte) (sig, detail string, accep
 				select {
 				case <-vdone:
 				default:
-					return "validator-blocked-on-mutex", "validator did not return and its goroutine has been waiting for a mutex for more than 10 s (a hang, not slowness):\n" + st, false, true
+					return "validator-blocked-on-mutex", "validator did not return and its goroutine has been parked in a lock / wait group / channel operation for more than 10 s (a hang, not slowness):\n" + st, false, true
 				}
 			}
 		}
@@ -761,7 +817,7 @@ func c05Run(tg *c05Target, topic string, data []byte) (sig, detail string, accep
 				select {
 				case <-done:
 				default:
-					return "handler-blocked-on-mutex", "handler did not return and its goroutine has been waiting for a mutex for more than 10 s (a hang, not slowness):\n" + st, true, true
+					return "handler-blocked-on-mutex", "handler did not return and its goroutine has been parked in a lock / wait group / channel operation for more than 10 s (a hang, not slowness):\n" + st, true, true
 				}
 			}
 		}
@@ -785,7 +841,7 @@ func c05Run(tg *c05Target, topic string, data []byte) (sig, detail string, accep
 
 func TestC05_StructuredMutants(t *testing.T) {
 	rec := recorder("C05")
-	rec.AddRule("per node flavour (core, Gnosis, Shutter service, Primev, snapshot keyper, Gnosis access node) x database state (empty, member with successful DKG n=3 t=2, member with keys/shares/signatures present, non-member; access node empty/synced; Gnosis, service and access node also know two degenerate keyper sets - threshold 0 with members, no members at all - and get base messages for them) x subscribed topic: a valid envelope of the topic's message type (with the flavour's extra) is mutated by a generic structure-aware protobuf mutator (every scalar replaced by boundary values 0,1,64..66,2^31,2^32,2^63,2^64-1; one case in twelve only sets one 64-bit integer - the last element of a list preferred - to a value with the top bit set; every list cleared/shortened/lengthened/swapped independently of its sibling list; every bytes/string field emptied/truncated/extended/flipped/randomised/resized to 31..96; sub-messages cleared/emptied/mutated recursively; oneof swapped), plus envelope mutations (version, missing/unknown/swapped Any type, trace) and raw truncation / bit flips / random bytes. The combined topic validator runs on the bytes; handlers run only for accepted inputs in the same state (libp2p's contract). Oracle: no panic, returns a verdict / (msgs, err), allocation during the call <= 8 MiB + 2 KiB*len(input); 60 s watchdog = inconclusive. non-trivial = input decodes to a message of the topic's type and reaches the handler-specific validator; distinct by (scenario, input bytes)")
+	rec.AddRule("per node flavour (core, Gnosis, Shutter service, Primev, snapshot keyper, Gnosis access node) x database state (empty, member with successful DKG n=3 t=2, member with keys/shares/signatures present, non-member; access node empty / synced / keyper set without eon key / eon key without keyper set; Gnosis, service and access node also know two degenerate keyper sets - threshold 0 with members, no members at all - and get base messages for them) x subscribed topic: a valid envelope of the topic's message type (with the flavour's extra) is mutated by a generic structure-aware protobuf mutator (every scalar replaced by boundary values 0,1,64..66,2^31,2^32,2^63,2^64-1; one case in twelve only sets one 64-bit integer - the last element of a list preferred - to a value with the top bit set, another one in twelve replaces one small index by another small in-range one; every list cleared/shortened/lengthened/swapped independently of its sibling list, or damaged in every element; every bytes/string field emptied/truncated/extended/flipped/randomised/resized to 31..96; sub-messages cleared/emptied/mutated recursively; oneof swapped), plus envelope mutations (version, missing/unknown/swapped Any type, trace) and raw truncation / bit flips / random bytes. The combined topic validator runs on the bytes; handlers run only for accepted inputs in the same state (libp2p's contract). Oracle: no panic, returns a verdict / (msgs, err), allocation during the call <= 8 MiB + 2 KiB*len(input); 60 s watchdog = inconclusive. non-trivial = input decodes to a message of the topic's type and reaches the handler-specific validator; distinct by (scenario, input bytes)")
 	rec.Assume("pgfake; panics inside goroutines spawned by handlers would not be observable (none are spawned today); libp2p delivers only validator-accepted messages to handlers")
 	scs := buildC05Scenarios()
 	for si, sc := range scs {
@@ -901,7 +957,11 @@ func blockedOnMutex(frame string) string {
 		if i := strings.IndexByte(g, '\n'); i >= 0 {
 			head = g[:i]
 		}
-		if strings.Contains(head, "[sync.Mutex.Lock") || strings.Contains(head, "[sync.RWMutex.") {
+		// parked in a synchronisation primitive that has no timeout of its own: a lock, a wait group, a channel
+		// operation outside a select (selects with timers and I/O waits have other states)
+		if strings.Contains(head, "[sync.Mutex.Lock") || strings.Contains(head, "[sync.RWMutex.") ||
+			strings.Contains(head, "[sync.WaitGroup.Wait") || strings.Contains(head, "[semacquire") ||
+			strings.Contains(head, "[chan send") || strings.Contains(head, "[chan receive") {
 			if len(g) > 3000 {
 				g = g[:3000]
 			}
